@@ -26,6 +26,15 @@
 #include "blake3_portable.c"
 #include "blake3.c"
 
+/* -DBLAKE3_USE_TBB flavours: the real c/blake3_tbb.cpp is linked against lib/c_driver/tbb_stub, whose
+ * parallel_invoke runs the two halves in the order given here (0 left-right, 1 right-left, 2 concurrently) */
+int verif_tbb_order = 0;
+#if defined(BLAKE3_USE_TBB)
+#define VERIF_UPDATE blake3_hasher_update_tbb
+#else
+#define VERIF_UPDATE blake3_hasher_update
+#endif
+
 #define PAGE 4096u
 typedef struct { unsigned char *base; size_t maplen; unsigned char *p; size_t n; unsigned char *slack; size_t slack_n; } gbuf;
 
@@ -84,7 +93,7 @@ static void init_mode(blake3_hasher *h, int mode, const unsigned char *key, cons
 static void feed(blake3_hasher *h, unsigned seed, size_t off, size_t n, int place) {
   gbuf in = galloc(n, place);
   for (size_t i = 0; i < n; i++) in.p[i] = pat(seed, off + i);
-  blake3_hasher_update(h, n ? in.p : in.p, n);
+  VERIF_UPDATE(h, in.p, n);
   gfree(&in);
 }
 
@@ -95,6 +104,7 @@ int main(void) {
   sa.sa_flags = SA_SIGINFO;
   sigaction(SIGSEGV, &sa, NULL);
   sigaction(SIGBUS, &sa, NULL);
+  if (getenv("VERIF_TBB_ORDER")) verif_tbb_order = atoi(getenv("VERIF_TBB_ORDER"));
   int detected = (int)get_cpu_features();
   printf("F %d\n", detected);
   fflush(stdout);
